@@ -2735,7 +2735,7 @@ class Entity(MutableMapping[str, str]):
                     vmf_file.groups[grp.id] = grp
                 else:
                     raise ValueError(f'Unrecognised block keyvalue "{name}" in entity!')
-            elif name == "id" and item.value.isnumeric():
+            elif name == "id" and item.value.isdecimal():
                 ent_id = int(item.value)
             elif name.startswith('replace'):
                 ind_str = name[7:]  # The index is everything after "replace", usually 2 digits.
